@@ -231,6 +231,9 @@ uint64_t mv_hash(const MVal *m, uint64_t h) {
 }
 
 // ---------------------------------------------------------------- structural walk
+bool (*mv_block_live)(const void *) = nullptr;
+bool mv_tolerate_dangling = false;
+static bool dangling(const void *p) { return mv_block_live && p && !mv_block_live(p); }
 static std::string nodepath(const MVal *m) {
     std::string p;
     while (m && m->parent) {
@@ -254,11 +257,16 @@ bool walk_check(const cJSON *n, MVal *m, bool as_root, std::string &why) {
         if (n->string) return fail("has a key, model says none");
     } else if (m->keystate == K_KNOWN) {
         if (!n->string) return fail("key is NULL, model says '" + m->key + "'");
+        if (!(n->type & cJSON_StringIsConst) && !pool().owns(n->string) && dangling(n->string)) {
+            if (mv_tolerate_dangling) goto key_done;
+            return fail("owned key points at memory that is not a live block of the allocator (released?)");
+        }
         if (m->key != n->string) return fail(std::string("key is '") + n->string + "', model says '" + m->key + "'");
         if (((n->type & cJSON_StringIsConst) != 0) != m->constkey) return fail(std::string("constant-key bit is ") + ((n->type & cJSON_StringIsConst) ? "set" : "clear"));
         if (m->constkey && (m->keypool < 0 ? !pool().owns(n->string) : n->string != pool().get(m->keypool))) return fail("constant key does not point at the caller's key memory");
         if (!m->constkey && pool().owns(n->string)) return fail("owned key points into caller memory");
     }
+key_done:
     if (m->type == T_NUMBER) {
         bool same = (n->valuedouble == m->num) || (n->valuedouble != n->valuedouble && m->num != m->num);
         if (!same) { char t[96]; snprintf(t, sizeof t, "valuedouble is %.17g, model says %.17g", n->valuedouble, m->num); return fail(t); }
@@ -267,6 +275,10 @@ bool walk_check(const cJSON *n, MVal *m, bool as_root, std::string &why) {
     if (m->refkind == R_NONE) {
         if (m->type == T_STRING || m->type == T_RAW) {
             if (!n->valuestring) return fail("valuestring is NULL");
+            if (!pool().owns(n->valuestring) && dangling(n->valuestring)) {
+                if (mv_tolerate_dangling) return true;
+                return fail("valuestring points at memory that is not a live block of the allocator (released?)");
+            }
             if (m->str != n->valuestring) return fail(std::string("string is '") + n->valuestring + "'");
             if (pool().owns(n->valuestring)) return fail("owned string points into caller memory");
         }
@@ -345,8 +357,10 @@ MVal *read_struct(const cJSON *n, size_t &budget, size_t depth, std::string &why
     m->num = n->valuedouble;
     if (m->type == T_STRING || m->type == T_RAW) {
         if (!n->valuestring) { why = "string without valuestring"; delete m; return nullptr; }
+        if (!(n->type & cJSON_IsReference) && !pool().owns(n->valuestring) && dangling(n->valuestring)) { why = "valuestring points at released memory"; delete m; return nullptr; }
         m->str = n->valuestring;
     }
+    if (n->string && !(n->type & cJSON_StringIsConst) && !pool().owns(n->string) && dangling(n->string)) { why = "key points at released memory"; delete m; return nullptr; }
     if (n->string) { m->keystate = K_KNOWN; m->key = n->string; m->constkey = (n->type & cJSON_StringIsConst) != 0; m->keypool = m->constkey ? pool().find(n->string) : -1; }
     if (m->type == T_ARRAY || m->type == T_OBJECT) {
         for (const cJSON *c = n->child; c; c = c->next) {
